@@ -263,6 +263,27 @@ func caseC08(r *rand.Rand, cw *CalcWriter, label string, maxT int) {
 		if mismatch {
 			continue
 		}
+		// the pairwise variant (linear search); its documented precondition is that both trees are indexed
+		refc := present(r, x, r.Intn(3))
+		cmpc := present(r, y, r.Intn(3))
+		evc := &CEvent{Kind: "CommonEdges", Prop: "C08", Case: label, Trees: []*PTree{project(refc, ProjOpt{}), project(cmpc, ProjOpt{})},
+			Args: map[string]interface{}{"tips": tips, "rel": rel, "swap": swap == 1}}
+		evc.guard(calcTimeout, func() error {
+			t1, cm, err := refc.CommonEdges(cmpc, tips)
+			if err != nil {
+				return err
+			}
+			found := 0
+			edges2 := cmpc.Edges()
+			for _, e := range refc.Edges() {
+				if f, err := e.FindEdge(edges2); err == nil && f != nil {
+					found++
+				}
+			}
+			evc.Res = map[string]interface{}{"tree1": t1, "common": cm, "found_all": found}
+			return nil
+		})
+		cw.emit(evc)
 		// weighted
 		ref2 := present(r, x, r.Intn(3))
 		cmp2 := present(r, y, r.Intn(3))
